@@ -1266,7 +1266,10 @@ def run(ctx):
     ]
     ctx.assumptions = [
         "tuple members are priors or floats named <argument>_<i>; no attribute of a Model is named <tuple argument>_<suffix>",
-        "arithmetic theorems are over exact rationals (generated *_Q leaves); binary64 behaviour is compared bit-for-bit by the correspondence",
+        "arithmetic theorems are over exact rationals (generated *_Q leaves), except `no negative width` which is also proved for ALL "
+        "binary64 values (C12_relative_width_float, C12_absolute_width_float, C12_widths_not_negative_float_leaves; they depend on the "
+        "specification axioms FloatAxioms.ltb_spec/leb_spec/eqb_spec/abs_spec/mul_spec of the Coq standard library); other binary64 behaviour "
+        "is compared bit-for-bit by the correspondence",
         "config lookup (autoconf) is an oracle table keyed by (class name, attribute name); inheritance from a parent class is "
         "materialised by the harness",
     ]
@@ -1496,6 +1499,8 @@ MANIFEST = {
             "result's instance was read first; proposed_fixes/C12-subsamples-resets-instance.diff); the pinned cases of the eight repaired "
             "findings are regression obligations. Not modelled: AnnotationPriorModel, Array models, deferred arguments, "
             "subtraction / negated priors, excluded_classes of copy_with_fixed_priors, the message object of a prior (oracle only), "
-            "name-keyed (samples.csv) samples in sessions, Samples.subsamples (full sample lists), jax; arithmetic theorems are over exact rationals, binary64 only on a stated grid and by correspondence.",
+            "name-keyed (samples.csv) samples in sessions, Samples.subsamples (full sample lists), jax; arithmetic theorems are over exact rationals; in binary64 `relative and absolute widths from a "
+            "non-negative factor are never negative` is a theorem for all floats (FloatAxioms of the Coq library, via coq/Common/Float64Order.v; "
+            "the former grid statement is kept as an axiom-free computation), everything else binary64 is by correspondence.",
     "technique": "machine-checked proof in Coq (hand-written model over the C01 tree + translated leaf formulas) + vm_compute correspondence",
 }
